@@ -156,6 +156,13 @@ var fullTargets = []target{
 	{"node/node.go", "Context", "invokeProcessorSync", "invokeProcessorSync"},
 	{"node/node.go", "Context", "invokeProcessorFanout", "invokeProcessorFanout"},
 	{"event.go", "", "NewAsyncEvent", "newAsyncEvent"},
+	{"node/registry.go", "Registry", "RegisterNodeType", "registerNodeType"},
+	{"node/registry.go", "Registry", "RegisterSourceType", "registerSourceType"},
+	{"node/registry.go", "Registry", "GetNodeRegistration", "getNodeRegistration"},
+	{"node/registry.go", "Registry", "GetSourceRegistration", "getSourceRegistration"},
+	{"metrics/metrics.go", "", "Init", "metricsInit"},
+	{"metrics/metrics.go", "", "Get", "metricsGet"},
+	{"metrics/metrics.go", "", "Node", "metricsNode"},
 	{"node/registry.go", "Registry", "InstantiateNode", "instantiateNode"},
 	{"node/registry.go", "Registry", "InstantiateSource", "instantiateSource"},
 	{"executor/executor.go", "", "WithConfig", "withConfig"},
@@ -225,12 +232,39 @@ type walker struct {
 	full bool // every statement verbatim (only logging dropped)
 }
 
+// isLogStmt: a logging statement that can be left out of a pin - a log.* call chain whose arguments call nothing but
+// conversions and formatting.  A log line whose arguments call anything else is kept: the call may have effects.
 func isLogStmt(e ast.Expr) bool {
 	c, ok := e.(*ast.CallExpr)
 	if !ok {
 		return false
 	}
-	return strings.HasPrefix(exprString(c.Fun), "log.")
+	if !strings.HasPrefix(exprString(c.Fun), "log.") {
+		return false
+	}
+	harmless := true
+	ast.Inspect(c, func(n ast.Node) bool {
+		x, ok := n.(*ast.CallExpr)
+		if !ok {
+			return true
+		}
+		fn := exprString(x.Fun)
+		if strings.HasPrefix(fn, "log.") {
+			return true
+		}
+		switch fn {
+		case "len", "cap", "int", "int32", "int64", "uint32", "float64", "string", "strconv.Itoa", "strconv.FormatInt", "fmt.Sprintf", "fmt.Sprint", "time.Since", "time.Now":
+			return true
+		}
+		for _, suf := range []string{".String", ".Error", ".Code", ".Seconds", ".Milliseconds"} {
+			if strings.HasSuffix(fn, suf) {
+				return true
+			}
+		}
+		harmless = false
+		return false
+	})
+	return harmless
 }
 
 func (w *walker) emit(d int, op, arg string) { w.out = append(w.out, instr{d, op, arg}) }
@@ -485,6 +519,28 @@ func recvName(fd *ast.FuncDecl) string {
 	return ""
 }
 
+// methodsOf lists (sorted) the methods declared with receiver type `name` in the non-test files of a package directory
+func methodsOf(dir, name string) []string {
+	var ms []string
+	entries, _ := os.ReadDir(dir)
+	for _, e := range entries {
+		if !strings.HasSuffix(e.Name(), ".go") || strings.HasSuffix(e.Name(), "_test.go") || e.Name() == "verif_hooks.go" {
+			continue
+		}
+		f, err := parser.ParseFile(fset, filepath.Join(dir, e.Name()), nil, 0)
+		if err != nil {
+			continue
+		}
+		for _, d := range f.Decls {
+			if fd, ok := d.(*ast.FuncDecl); ok && recvName(fd) == name {
+				ms = append(ms, fd.Name.Name)
+			}
+		}
+	}
+	sort.Strings(ms)
+	return ms
+}
+
 func leanStr(s string) string {
 	s = strings.ReplaceAll(s, "\\", "\\\\")
 	s = strings.ReplaceAll(s, "\"", "\\\"")
@@ -494,6 +550,7 @@ func leanStr(s string) string {
 func main() {
 	repo := flag.String("repo", "/repo", "repository root")
 	out := flag.String("out", "", "output directory")
+	rootsFile := flag.String("roots", "", "JSON file: property -> lean names of its pinned functions (for the influence closures)")
 	flag.Parse()
 	parsed := map[string]*ast.File{}
 	render := func(sb *strings.Builder, ts []target, full bool) {
@@ -524,6 +581,9 @@ func main() {
 							if ts, ok := sp.(*ast.TypeSpec); ok && ts.Name.Name == t.name {
 								w.out = nil
 								w.emit(0, "type", exprString(ts.Type))
+								// the methods declared on the type anywhere in its package: a new MarshalJSON, Error or String changes
+								// how values of the type are encoded without touching the type or any existing function
+								w.emit(0, "methods", strings.Join(methodsOf(filepath.Join(*repo, filepath.Dir(t.file)), t.name), ","))
 							}
 						}
 					}
@@ -618,5 +678,11 @@ func main() {
 	if err := os.WriteFile(filepath.Join(*out, "Skeleton.lean"), []byte(sb.String()), 0o644); err != nil {
 		fmt.Fprintln(os.Stderr, err)
 		os.Exit(1)
+	}
+	if *rootsFile != "" {
+		if err := writeClosures(*repo, *out, *rootsFile); err != nil {
+			fmt.Fprintln(os.Stderr, err)
+			os.Exit(1)
+		}
 	}
 }
